@@ -35,6 +35,7 @@ ItemList == <<
     Bad(It("b3", "singleton", 0, "a", "ctorerr"), "asstruct"),
     Bad(It("b4", "singleton", 0, "a", "ctorerr"), "nilctor"),
     Bad(It("b5", "singleton", 0, "a", "ctorerr"), "nilfunc"),
+    Bad(It("b6", "singleton", 3, "a", "ctorerr"), "outnamegroup"),    \* Out{S3; S0 `name:"k" group:"g"`}
     Bad(It("c1", "singleton", 0, "a", "ctorerr"), "retctx"),
     Bad(It("c2", "scoped", 0, "a", "ctorerr"), "retprov"),
     Bad(It("c3", "singleton", 0, "a", "ctorerr"), "asctx"),
